@@ -40,16 +40,15 @@ Theorem C15_fragment_dereferences_no_nil_child :
   forall t, frag_envelope frag_tbl t = true -> f_err (node_frags frag_tbl t) = false.
 Proof. exact (fragment_no_nil_dereference frag_tbl). Qed.
 
-(* restorer: for every action list with non-negative lengths in which no "\n" decoration is
-   executed before anything was emitted, if no explicit panic action is executed (duplicate
+(* restorer: for every action list with non-negative lengths, if no explicit panic action is executed (duplicate
    node, unrecognised statement) then SetLines succeeds: the restored file is produced. *)
 Theorem C15_restore_produces_a_file :
   forall b acts,
-  1 <= b -> Forall act_ok acts -> safe 0 acts -> nlbad (init_r b) acts = false ->
+  1 <= b -> Forall act_ok acts -> safe 0 acts ->
   panic (run_acts b acts) = None ->
   exists r, finish (run_acts b acts) = Ok r.
 Proof.
-  intros b acts Hb Hok Hs Hn Hp. destruct (run_coherent b acts Hb Hok Hs Hn Hp) as [r [H _]]. exists r. exact H.
+  intros b acts Hb Hok Hs Hp. destruct (run_coherent b acts Hb Hok Hs Hp) as [r [H _]]. exists r. exact H.
 Qed.
 
 (* The explicit panic sites of the decorate / restore path are exactly the audited ones:
@@ -89,11 +88,11 @@ Theorem C15_errors_are_returned :
   && imports_resolve_before_mutation && imports_error_wrapped = true.
 Proof. vm_compute. reflexivity. Qed.
 
-(* the panics that remain reachable from hand-built trees (not from parser output) *)
-Example C15_first_emission_newline_panics :
-  finish (run_acts 1 [AEnter 1; ASpace false false SNone; ADecs 1 "File" "Start" false [DNl]; AAdv 7])
-  = Panic "ff.SetLines failed".
-Proof. vm_compute. reflexivity. Qed.
+(* a hand-built tree whose first emission is a "\n" decoration used to make SetLines fail; it is
+   restored since fix 3dd4b07 *)
+Example C15_first_emission_newline_is_restored :
+  exists r, finish (run_acts 1 [AEnter 1; ASpace false false SNone; ADecs 1 "File" "Start" false [DNl]; AAdv 7]) = Ok r.
+Proof. eexists. vm_compute. reflexivity. Qed.
 
 Example C15_nonvacuous :
   let st := mkNC true false false false in
